@@ -42,14 +42,60 @@ class Obligation:
         return asdict(self)
 
 
+class HarnessAssumption(Exception):
+    """A private name / mechanism of tally that the harness hooks into is not what it was when the harness was written
+    (a refactoring moved it).  The obligation cannot be decided on this source: it is reported INCONCLUSIVE with this
+    message - never as a violation, never as discharged."""
+
+
+def need(cond, what):
+    if not cond:
+        raise HarnessAssumption(what)
+
+
+def _clear_caches_of(mod, dict_names):
+    for name in dict_names:
+        c = getattr(mod, name, None)
+        if isinstance(c, dict):
+            c.clear()
+    for v in list(vars(mod).values()):
+        cc = getattr(v, 'cache_clear', None)          # functools caches a refactoring may have introduced
+        if callable(cc) and getattr(v, '__module__', None) == mod.__name__:
+            try:
+                cc()
+            except Exception:
+                pass
+
+
 def reset_tally_caches():
-    """Clear tally's three process-wide caches (CrossHair re-runs the harness once per path
-    inside one interpreter)."""
+    """Clear tally's process-wide caches (CrossHair re-runs the harness once per path inside one interpreter)."""
     from tally import expr_parser, merchant_utils
-    expr_parser._expression_cache.clear()
-    expr_parser._regex_cache.clear()
-    merchant_utils._cached_engine = None
-    merchant_utils._cached_engine_path = None
+    _clear_caches_of(expr_parser, ['_expression_cache', '_regex_cache'])
+    _clear_caches_of(merchant_utils, [])
+    if hasattr(merchant_utils, '_cached_engine'):
+        merchant_utils._cached_engine = None
+    if hasattr(merchant_utils, '_cached_engine_path'):
+        merchant_utils._cached_engine_path = None
+
+
+def use_engine(eng):
+    """Make `eng` the engine normalize_merchant uses (what get_all_rules does after loading a .rules file)."""
+    from tally import merchant_utils
+    need(hasattr(merchant_utils, '_cached_engine'), 'merchant_utils._cached_engine is gone: the engine normalize_merchant uses cannot be set')
+    merchant_utils._cached_engine = eng
+
+
+def _fresh_cached_tree(expr_src):
+    """The tree tally's evaluator will use for `expr_src` (parsed now, by the real parser)."""
+    from tally import expr_parser
+    c = getattr(expr_parser, '_expression_cache', None)
+    if isinstance(c, dict):
+        c.pop(expr_src, None)
+    tree = expr_parser.parse_expression(expr_src)
+    # the injection only reaches the evaluator if the parser hands out the SAME tree next time
+    need(expr_parser.parse_expression(expr_src) is tree,
+         'expr_parser.parse_expression no longer returns one cached tree per expression text: constants cannot be injected')
+    return tree
 
 
 def inject(expr_src: str, values: Dict[str, Any]):
@@ -57,9 +103,7 @@ def inject(expr_src: str, values: Dict[str, Any]):
     and cached under its own text) and overwrites every `ast.Constant` whose concrete value is a
     key of `values` (placeholders such as "@P1" or 9001) by the (possibly symbolic) value.
     Returns the cached tree.  Trusted: ast.parse maps a literal to a Constant holding it."""
-    from tally import expr_parser
-    expr_parser._expression_cache.pop(expr_src, None)
-    tree = expr_parser.parse_expression(expr_src)
+    tree = _fresh_cached_tree(expr_src)
     for node in ast.walk(tree):
         if isinstance(node, ast.Constant):
             v = node.value
@@ -85,9 +129,7 @@ def inject_tree(tree, values: Dict[str, Any]):
 def const_true_false(expr_src: str, value):
     """Make the whole cached tree of `expr_src` evaluate to `value`: the body becomes a Constant
     holding it (truth-vector abstraction)."""
-    from tally import expr_parser
-    expr_parser._expression_cache.pop(expr_src, None)
-    tree = expr_parser.parse_expression(expr_src)
+    tree = _fresh_cached_tree(expr_src)
     tree.body = ast.Constant(value=value)
     return tree
 
